@@ -3,6 +3,7 @@ package main
 import (
 	"encoding/json"
 	"fmt"
+	"os"
 	"regexp"
 	"strings"
 )
@@ -224,6 +225,9 @@ func c01Judge(r *Run, c *corpus, reportPipeline bool) {
 		}
 		r.Eval()
 		r.Count("events.roundtrip", 1)
+		if os.Getenv("VERIF_DEBUG") == m.obj.Name && m.obj.Name != "" {
+			fmt.Printf("DEBUG %s %s doc=%s\n   out=%s strictErr=%q decodeErr=%q\n", m.cs.Format, m.obj.Name, truncate(string(q.Doc), 300), truncate(string(resp.Out), 300), resp.StrictErr, resp.DecodeErr)
+		}
 		if string(q.Doc) != "{}" {
 			r.Distinct(m.cs.ID + m.obj.Name + string(q.Doc))
 		}
